@@ -25,6 +25,15 @@ def main():
         if not has or c.get('not_applicable'):
             na.append({'property_id': pid, 'reason': c.get('not_applicable') or 'no static rule armed for this property yet (see DESIGN.md section 3); not claimed'})
             continue
+        text = c['text']
+        evp = os.path.join(HERE, 'evidence', pid + '.json')
+        if os.path.isfile(evp):
+            # keep the claim current with what is registered: every rule with the clause it decides
+            import re as _re
+            rules = json.load(open(evp))['coverage']['rules']
+            ks = sorted(rules, key=lambda k: int(_re.sub(r'\D', '', k) or 0))
+            text += ' Rules registered as of the last run (id: clause): ' + '; '.join(
+                '%s: %s' % (k, str(rules[k].get('doc', '')).replace('\n', ' ')) for k in ks) + '.'
         checks.append({
             'property_id': pid,
             'quick_cmd': './check %s --tier quick' % pid,
@@ -34,7 +43,7 @@ def main():
             'engine': 'sa',
             'level_claimed': {
                 'category': 'other',
-                'text': c['text'],
+                'text': text,
                 'design_ref': 'DESIGN.md section 3, %s' % pid,
             },
             'level_note': c['note'],
